@@ -270,6 +270,8 @@ structure St where
   mUnacked : List (Nat × Nat) := []        -- (sid, uid) received, not yet acked
   mAcked : List Nat := []
   mUp : List Nat := []                     -- links the harness currently plays as running
+  mLive : List Nat := []                   -- sids bound since the last restart
+  mParkedL : List (Nat × Nat) := []        -- (sid, uid) parked as unclaimed, in order
   mOps : Nat := 0
   mReceived : Nat := 0
   mParked : Nat := 0
@@ -465,6 +467,44 @@ def monRecv (s : St) (newRound : Option Nat) (recvs : List (Nat × List Nat)) : 
                     mReceived := s.mReceived + 1 }
   return s
 
+/-- monitor: what has to happen to a packet right after `Deliver` accepted or refused it. -/
+def monDelivered (s : St) (sid u : Nat) (k : Key) (typ : Nat) (res : String)
+    (recvs : List (Nat × List Nat)) : IO St := do
+  let mut s := s
+  let live := s.mLive.contains sid
+  if res == "ok" then
+    if !live then
+      s := { s with mParkedL := s.mParkedL ++ [(sid, u)] }
+    else if s.mUp.contains sid && !(recvs.any (fun r => r.1 == sid && r.2.contains u)) then
+      s ← monitor s "delivery-lost" s!"packet {u} (inKey {keyStr k}) was accepted for the running link {sid} but not handed to it"
+  else if res == "exists" then
+    -- refused as a duplicate: an earlier packet of the same class and key must still be un-acked
+    let cls (t : Nat) : Bool := t < 2
+    let earlier := s.mInfo.filter (fun i => i.1 != u && i.2.1 == sid && i.2.2.1 == k && cls i.2.2.2 == cls typ)
+    if typ < 2 && earlier.all (fun i => s.mAcked.contains i.1) then
+      s ← monitor s "response-refused" s!"response {u} for {keyStr k} was refused as a duplicate although every earlier response for that key on link {sid} has been acked"
+  return s
+
+/-- monitor: at the first bind after a restart the parked packets reach the link: replies before
+    adds, the first one per (class, key). -/
+def monFirstBind (s : St) (sid : Nat) (recvs : List (Nat × List Nat)) : IO St := do
+  if s.mLive.contains sid then return s
+  let mut s := s
+  let got := (recvs.filter (fun r => r.1 == sid)).flatMap (·.2)
+  let parked := (s.mParkedL.filter (fun x => x.1 == sid)).map (·.2)
+  let info (u : Nat) : Option (Key × Bool) :=
+    (s.mInfo.find? (fun i => i.1 == u)).map (fun i => (i.2.2.1, decide (i.2.2.2 < 2)))
+  let rec firsts (seen : List (Key × Bool)) : List Nat → List Nat
+    | [] => []
+    | u :: rest =>
+      match info u with
+      | some kc => if seen.contains kc then firsts seen rest else u :: firsts (kc :: seen) rest
+      | none => firsts seen rest
+  for u in firsts [] parked do
+    if !(got.contains u) then
+      s ← monitor s "parked-lost" s!"packet {u} was parked for link {sid} before it was registered and did not reach it at the first bind"
+  return { s with mLive := sid :: s.mLive, mParkedL := s.mParkedL.filter (fun x => x.1 != sid) }
+
 def recvOf (ws : List String) : Option (List (Nat × List Nat)) := (kv? (afterArrow ws) "recv").bind recv?
 
 /-- compare the model's received list for `sid` with the implementation's. -/
@@ -492,7 +532,7 @@ def step (s : St) (line : String) : IO St := do
                       prev := {}, live := [], responded := [], disciplined := true,
                       expectSame := none, expectRestart := none, cases := s.cases + 1,
                       mch := fun _ => Chan.empty, mRound := [], mInfo := [], mUnacked := [], mAcked := [],
-                      mUp := [] }
+                      mUp := [], mLive := [], mParkedL := [] }
     if s.samples < 3 && s.kind != "race" && !(s.kind.startsWith "script") then
       IO.println s!"SAMPLE {line}"
       return { s with samples := s.samples + 1 }
@@ -764,6 +804,7 @@ def step (s : St) (line : String) : IO St := do
                   mParked := s.mParked + (if parked then 1 else 0),
                   mExists := s.mExists + (if r == "exists" then 1 else 0),
                   nontrivial := s.nontrivial + 1 }
+    s ← monDelivered s sid u k t r recvs
     monRecv s none recvs
   | "mgetbox" :: sw :: _ =>
     let s := { s with ops := s.ops + 1, mOps := s.mOps + 1 }
@@ -780,8 +821,9 @@ def step (s : St) (line : String) : IO St := do
     let mut s ← xRecv s sid mr.recv recvs
     if resOf ws != "ok" then
       s ← mismatch s "mlinkup: ResetPackets failed"
-    monRecv { s with mch := upd s.mch sid c', nontrivial := s.nontrivial + 1,
-                     mUp := if s.mUp.contains sid then s.mUp else sid :: s.mUp } (some sid) recvs
+    s := { s with mUp := if s.mUp.contains sid then s.mUp else sid :: s.mUp }
+    s ← monFirstBind s sid recvs
+    monRecv { s with mch := upd s.mch sid c', nontrivial := s.nontrivial + 1 } (some sid) recvs
   | "mlinkdown" :: sw :: _ =>
     let s := { s with ops := s.ops + 1, mOps := s.mOps + 1 }
     let some sid := nat? sw | mismatch s "bad sid"
@@ -862,10 +904,12 @@ def step (s : St) (line : String) : IO St := do
       s ← monResponse s ("ok:" ++ implIn) none false
       if !(s.mInfo.any (fun i => i.1 == u)) then
         s := { s with mInfo := (u, k.chan, k, typ) :: s.mInfo }
+      s ← monDelivered s k.chan u k typ r recvs
     | none => pure ()
     monRecv s none recvs
   | "mrestart" :: _ =>
-    return { s with mch := fun _ => Chan.empty, mRound := [], mUnacked := [], mUp := [] }
+    return { s with mch := fun _ => Chan.empty, mRound := [], mUnacked := [], mUp := [], mLive := [],
+                    mParkedL := [] }
   | "race" :: _ =>
     let s := { s with ops := s.ops + 1, races := s.races + 1, xOff := true }
     let rs := (afterArrow ws).headD ""
